@@ -13,7 +13,6 @@ MaskSet(m, n) == {i \in 0..(n - 1) : (m \div Pow2(i)) % 2 = 1}
 B(b) == IF b THEN "t" ELSE "f"
 
 (* validator experiments exported: publisher / local positions at the ends and in the middle *)
-Positions(NP) == {0, NP - 1, NP \div 2}
 ValRec(c, loc, pub, u, f, j, seen, cached, nz) ==
   LET NP == NPeers(c)
   IN [loc |-> loc, pub |-> pub, u |-> u, f |-> f, j |-> j, seen |-> seen, cached |-> cached, nz |-> nz,
@@ -31,6 +30,38 @@ ValCases(c) ==
                   u \in Slots(c), f \in ValFields(c) } :
           lp \in {x \in Positions(NPeers(c)) \X Positions(NPeers(c)) : x[1] # x[2]} }
 
+(* Sequences on ONE validator instance: every junk kind aimed at every index, before and after the
+   genuine unit of that index and of another index, and "poison-all" (one genuine unit, then junk
+   for every other index, then every genuine unit).  Each step carries the verdict the model gives
+   in the state the earlier steps left behind. *)
+RECURSIVE RunPlan(_, _, _, _, _)
+RunPlan(NP, loc, pub, st, steps) ==
+  IF steps = <<>> THEN <<>>
+  ELSE LET h == Head(steps)
+           r == SessionStep(NP, loc, pub, h.u, h.f, h.j, st)
+           hs == HonestSender(pub, loc, h.u)
+       IN <<[u |-> h.u, f |-> h.f, j |-> h.j, i |-> IdxOf(NP, h.u, h.f, h.j),
+             sender |-> IF h.f = "sender" THEN OtherPeer(NP, hs, loc) ELSE IF h.f = "senderself" THEN loc ELSE hs,
+             v |-> r.v]>> \o RunPlan(NP, loc, pub, r.st, Tail(steps))
+Gen(u) == [u |-> u, f |-> "none", j |-> u]
+Junk(c, f, t) == IF f = "index" THEN [u |-> (t + 1) % NU(c), f |-> f, j |-> t] ELSE [u |-> t, f |-> f, j |-> t]
+JunkFields(c) == {f \in SessionFields \ {"none"} : /\ (f = "index" => NU(c) >= 2)
+                                                    /\ (f = "sender" => NPeers(c) >= 3)}
+Pairs(c) == {x \in Positions(NPeers(c)) \X Positions(NPeers(c)) : x[1] # x[2]}
+Plan(c, lp, name, f, t, steps) ==
+  [name |-> name, loc |-> lp[1], pub |-> lp[2], f |-> f, t |-> t,
+   steps |-> RunPlan(NPeers(c), lp[1], lp[2], [acc |-> {}, sig |-> FALSE], steps)]
+Sessions(c) ==
+  LET n == NU(c)
+  IN UNION { UNION { UNION {
+         { Plan(c, lp, "junk-genuine-junk-genuine", f, t, <<Junk(c, f, t), Gen(t), Junk(c, f, t), Gen(t)>>),
+           Plan(c, lp, "genuine-junk-genuine", f, t, <<Gen(t), Junk(c, f, t), Gen(t)>>),
+           Plan(c, lp, "other-genuine-junk-genuine", f, t, <<Gen((t + 1) % n), Junk(c, f, t), Gen(t), Gen((t + 1) % n)>>) }
+         : t \in Slots(c) } \cup
+         { Plan(c, lp, "poison-all", f, 0,
+                <<Gen(0)>> \o [k \in 1..(n - 1) |-> Junk(c, f, k)] \o [k \in 1..n |-> Gen(k - 1)]) }
+       : f \in JunkFields(c) } : lp \in Pairs(c) }
+
 Table(c) ==
   LET n == NU(c) M == Pow2(n)
   IN [d |-> Data(c), p |-> Parity(c),
@@ -42,6 +73,7 @@ Table(c) ==
                      THEN Construct(c, MaskSet(m - 1, n), slot - 1, what, "ok") ELSE "-"]]],
       fieldwhat |-> [f \in ConstructFields |-> [b \in {"t", "f"} |-> CorWhat(f, b = "t")]],
       val |-> ValCases(c),
+      sessions |-> Sessions(c),
       proto |-> [kind \in ProtoKinds |-> FromProto(kind)],
       lens |-> [L \in AllLens |-> ShardSize(L, Data(c))],
       peerof |-> [pub \in 1..(n + 1) |-> [i \in 1..n |-> PeerOfShard(pub - 1, i - 1)]],
@@ -49,11 +81,11 @@ Table(c) ==
                                    build |-> BuildThreshold(NP), recv |-> ReceiveThreshold(NP)]]]
 
 VARIABLE todo
-MBTInit == todo = Configs /\ cfg = <<1, 1>> /\ exp = [k |-> "created"] /\ out = "units"
+MBTInit == todo = Configs /\ cfg = <<1, 1>> /\ exp = [k |-> "created"] /\ out = "units" /\ vst = NoSession
 MBTNext ==
   /\ todo # {}
   /\ LET c == CHOOSE x \in todo : TRUE
      IN /\ PrintT(ToJson(Table(c)))
         /\ todo' = todo \ {c}
-  /\ UNCHANGED <<cfg, exp, out>>
+  /\ UNCHANGED <<cfg, exp, out, vst>>
 =============================================================================
